@@ -36,7 +36,9 @@ func loadSweepClaimed(verif string) map[string]bool {
 func sweepNames(P *Program) []string {
 	var names []string
 	for name, fn := range P.funcs {
-		if P.getContract(name) != nil || strings.Contains(name, "$bound") || strings.Contains(name, "$thunk") || strings.HasPrefix(name, "cmd:") || len(fn.Blocks) == 0 {
+		// a contract flagged nosafety claims no panic-freedom of its own: such a function stays in the sweep, so
+		// that giving a function a functional or site contract never drops its recorded safety obligations
+		if c := P.getContract(name); (c != nil && !c.flag("nosafety")) || strings.Contains(name, "$bound") || strings.Contains(name, "$thunk") || strings.HasPrefix(name, "cmd:") || len(fn.Blocks) == 0 {
 			continue
 		}
 		names = append(names, name)
@@ -109,7 +111,7 @@ func safetySweep(P *Program, tier string) []extraResult {
 			Detail: fmt.Sprintf("%s:%d: a panic obligation (%s) that was proved without any precondition when it was recorded can no longer be proved\nmust hold: %s\nverdict %s %v", shortFile(r.Obl.Pos.Filename), r.Obl.Pos.Line, r.Obl.Kind, truncate(r.Obl.Cond, 600), r.Res.Verdict, r.Res.All)})
 	}
 	out = append([]extraResult{{Name: "safety/sweep", Kind: "sweep", OK: okc > 0, Count: okc,
-		Detail: fmt.Sprintf("%d functions without a contract swept without annotations and preconditions; %d of the %d recorded panic obligations (tables/c11_sweep_proved.json) exist on this tree and were re-proved, %d failed", nfuncs, okc, len(claimed), len(out))}}, out...)
+		Detail: fmt.Sprintf("%d functions without a contract (or with one that claims no panic-freedom: nosafety) swept without annotations and preconditions; %d of the %d recorded panic obligations (tables/c11_sweep_proved.json) exist on this tree and were re-proved, %d failed", nfuncs, okc, len(claimed), len(out))}}, out...)
 	for i := range out {
 		out[i].Ms = time.Since(t0).Milliseconds()
 	}
